@@ -1,2 +1,3 @@
+pub mod optests;
 pub mod refhash;
 pub mod refserde;
